@@ -397,8 +397,13 @@ def d2_shape(chk, F):
         firsts.append(a[1])
         if a[0] != "$1" or a[2:] != ["$3", "$4"]:
             okargs = False
-    has_start = any("start" in x for x in firsts)
-    has_end = any("end" in x for x in firsts)
+    def is_start(x):        # `*r.start()`  or  `r.into_inner().0`
+        return "start" in x or ("into_inner" in x and x.rstrip(")").endswith(".0"))
+
+    def is_end(x):
+        return "end" in x or ("into_inner" in x and x.rstrip(")").endswith(".1"))
+    has_start = any(is_start(x) for x in firsts)
+    has_end = any(is_end(x) for x in firsts)
     chk.expect(len(calls) == 3 and okargs and has_start and has_end, "C09.D2-range", "convert_value", f"{g.file}:{g.line}",
                f"convert_value must convert the number, the range start and the range end with (from, to) unchanged; found value operands {firsts}",
                sample=f"three conversions: {firsts}")
@@ -408,7 +413,10 @@ def d2_shape(chk, F):
             a = [resolve(g, x) for x in t["args"]]
             s0 = show(a[0])
             s1 = show(a[1])
-            chk.expect("start" in s0 and "end" in s1 and "convert_f64" in s0 and "convert_f64" in s1, "C09.D2-range", "convert_value range ends",
+            in0 = re.search(r"convert_f64\((.*)\)", s0)
+            in1 = re.search(r"convert_f64\((.*)\)", s1)
+            chk.expect(bool(in0 and in1) and is_start(in0.group(1).split(", ")[1] if ", " in in0.group(1) else in0.group(1)) and
+                       is_end(in1.group(1).split(", ")[1] if ", " in in1.group(1) else in1.group(1)), "C09.D2-range", "convert_value range ends",
                        g.where(b), f"converted range is built from ({s0}, {s1}) instead of (converted start, converted end)",
                        sample=f"RangeInclusive::new({s0[:60]}…, {s1[:60]}…)")
 
